@@ -218,7 +218,7 @@ func (e *env) stdGhost(g GhostSpec) func(*sched.Sim) {
 		case "cmd":
 			s.W.Ghost(e.addr, g.Argv...)
 		case "tick":
-			time.Sleep(time.Duration(g.DurMs) * time.Millisecond)
+			time.Sleep(time.Duration(g.DurMs)*time.Millisecond + time.Duration(g.DurUs)*time.Microsecond)
 			s.W.Tick()
 		default:
 			panic("unknown ghost kind " + g.Kind)
